@@ -3,6 +3,7 @@ package main
 // Statement execution: forward symbolic execution with state merging; loops cut at invariants.
 
 import (
+	"os"
 	"fmt"
 	"strings"
 	"go/ast"
@@ -43,6 +44,22 @@ func (e *Engine) execBlock(st *State, stmts []ast.Stmt, cx *Ctx) *State {
 func (e *Engine) execStmt(st *State, s ast.Stmt, cx *Ctx) *State {
 	if st == nil {
 		return nil
+	}
+	if e.fc != nil && e.fc.asserts != nil && len(e.inlineStack) == 0 {
+		for _, a := range e.fc.asserts[s] {
+			// at "<stmt>" assert P: an intermediate lemma, proved here (universal variables as fresh constants)
+			// and then available to everything after it
+			m := e.beginScope()
+			tmp := st.clone()
+			e.skolemGoal, e.pol, e.skolemOf = true, 1, map[*ast.FuncLit][]T{}
+			g := e.evalClause(tmp, a, nil)
+			e.skolemGoal, e.pol, e.skolemOf = false, 0, nil
+			e.oblige(tmp, "assert", a.text, g, s.Pos(), a)
+			e.endScope(m)
+			g2 := e.evalClause(st, a, nil)
+			e.assume(st, g2, "asserted lemma")
+			st.pc = e.name("pc", And(st.pc, g2))
+		}
 	}
 	switch n := s.(type) {
 	case *ast.BlockStmt:
@@ -801,6 +818,7 @@ func (e *Engine) havocLoopTargets(st *State, body ast.Node, extra ...ast.Node) {
 	}
 	if heap {
 		e.havocHeapOnly(st, "loop")
+		e.sawHavoc = true
 		if e.frame != nil && !e.frame.all {
 			e.epochFrames[st.epoch] = true
 		}
@@ -885,7 +903,24 @@ func (e *Engine) checkInvariants(st *State, lc *LoopContract, kind string, pos t
 	for _, inv := range lc.invariants {
 		m := e.beginScope()
 		tmp := st.clone()
-		g := e.evalClause(tmp, inv, nil)
+		var g T
+		if kind == "inv-pres" && e.invHead != nil && os.Getenv("GOVC_NOSKOLEM") == "" {
+			// prove the clause for fresh constants in place of its positive universal variables, and add the
+			// instance of the clause assumed at the loop head for the same constants
+			e.skolemGoal, e.pol, e.skolemOf = true, 1, map[*ast.FuncLit][]T{}
+			g = e.evalClause(tmp, inv, nil)
+			e.skolemGoal, e.pol = false, 0
+			if len(e.skolemOf) > 0 {
+				h := e.invHead.clone()
+				e.instWith, e.pol = e.skolemOf, 1
+				inst := e.evalClause(h, inv, nil)
+				e.instWith, e.pol = nil, 0
+				e.facts = append(e.facts, Fact{Implies(e.invHead.pc, inst), "loop invariant (instance at the goal's constants)"})
+			}
+			e.skolemOf = nil
+		} else {
+			g = e.evalClause(tmp, inv, nil)
+		}
 		e.oblige(tmp, kind, inv.text, g, pos, inv)
 		e.endScope(m)
 	}
@@ -966,7 +1001,9 @@ func (e *Engine) execFor(st *State, n *ast.ForStmt, cx *Ctx) *State {
 		if n.Post != nil {
 			back = e.execStmt(back, n.Post, inner)
 		}
+		e.invHead = iterStart
 		e.checkInvariants(back, lc, "inv-pres", n.Pos())
+		e.invHead = nil
 		if lc != nil && lc.decreases != nil {
 			m := e.beginScope()
 			tmp := back.clone()
@@ -1133,7 +1170,28 @@ func (e *Engine) execRange(st *State, n *ast.RangeStmt, cx *Ctx) *State {
 			}
 			back.vars[idxObj] = IntV{Add(i, I(1))}
 			bindHead(back)
-			e.checkInvariants(back, lc, "inv-pres", n.Pos())
+			e.invHead = iterStart
+			var paths []*State
+			for _, ps := range append([]*State{out}, inner.continues...) {
+				if ps != nil {
+					paths = append(paths, ps)
+				}
+			}
+			if len(paths) >= 2 && len(paths) <= 6 && lc != nil && len(lc.invariants) > 0 {
+				// preservation per path through the body: each condition is much simpler than on the merged state
+				for _, ps := range paths {
+					pc := ps.clone()
+					if iterObj != nil {
+						pc.vars[iterObj] = IntV{i}
+					}
+					pc.vars[idxObj] = IntV{Add(i, I(1))}
+					bindHead(pc)
+					e.checkInvariants(pc, lc, "inv-pres", n.Pos())
+				}
+			} else {
+				e.checkInvariants(back, lc, "inv-pres", n.Pos())
+			}
+			e.invHead = nil
 		}
 		cx.returns = append(cx.returns, inner.returns...)
 		cx.defers = inner.defers
